@@ -101,6 +101,9 @@ func (s *Swarm[A, Pub]) Ask(ctx context.Context, resp []byte, dst A, req p2p.IOV
 		}
 		return 0, err
 	}
+	if ask.err != nil {
+		return 0, ask.err
+	}
 	return ask.n, nil
 }
 
